@@ -244,7 +244,17 @@ type Node struct {
 // tuple, dict (keys and values), set elements, struct fields and constructor,
 // function defaults and closure cells, bound-method receivers and module
 // members. Tuples are followed but not reported as nodes.
-func Walk(roots starlark.StringDict) []Node {
+func Walk(roots starlark.StringDict) []Node { return walk(roots, nil) }
+
+// WalkTuples returns the non-empty tuples met on the same walk (they have no
+// identity of their own; each occurrence is reported once per path).
+func WalkTuples(roots starlark.StringDict) []Node {
+	var ts []Node
+	walk(roots, &ts)
+	return ts
+}
+
+func walk(roots starlark.StringDict, tuples *[]Node) []Node {
 	seen := map[any]bool{}
 	var out []Node
 	var visit func(v starlark.Value, path string, depth int)
@@ -265,6 +275,9 @@ func Walk(roots starlark.StringDict) []Node {
 				visit(x.Index(i), fmt.Sprintf("%s[%d]", path, i), depth+1)
 			}
 		case starlark.Tuple:
+			if tuples != nil && len(x) > 0 && len(*tuples) < 400 {
+				*tuples = append(*tuples, Node{x, path})
+			}
 			for i, e := range x {
 				visit(e, fmt.Sprintf("%s(%d)", path, i), depth+1)
 			}
